@@ -432,6 +432,22 @@ func c11TestMode(t *testing.T, policy, unit string, kill bool, mode *c11Mode) {
 		if nt && st.WantSample() && len(cc.History.Ops) <= 12 {
 			st.Sample(map[string]any{"history": cc.History.summary(), "kill_at": cc.KillAt, "restarts": cc.Restarts})
 		}
+		if v != nil && !vfkit.IsKnown(v) {
+			// placement after a restart depends on map iteration order inside the code under
+			// test: a report must come with a case that shows it again, otherwise it cannot be
+			// replayed or triaged (counted, not reported)
+			again := false
+			for i := 0; i < 6 && !again; i++ {
+				if w, _, _ := c11Check(cc, nil, mode); w != nil && w.Signature == v.Signature {
+					again = true
+				}
+			}
+			if !again {
+				st.Label("violation-not-reproduced-in-6-reruns:" + v.Signature)
+				st.SelfCheckFailed()
+				v = nil
+			}
+		}
 		if v != nil {
 			if best == nil || len(cc.History.Ops) < len(best.History.Ops) {
 				best = cc
